@@ -84,11 +84,17 @@ def analyser_names() -> tuple[set[str], tuple[str, ...]]:
 _ALL_WORDS: set[str] = set()
 
 
-def _known_to_analyser(name: str) -> bool:
+# name prefixes stand for families of functions the rules enumerate (`_deserialize_*`, `_parse_*` …): they live in these modules
+_PREFIX_MODULES = ("onnx_ir.serde", "onnx_ir._symbolic_shapes")
+
+
+def _known_to_analyser(name: str, module: str | None = None) -> bool:
     exact, prefixes = analyser_names()
     if not name.startswith("_"):
         return name in _ALL_WORDS  # public-looking method of a private class: any mention counts
-    return name in exact or any(name.startswith(p) for p in prefixes)
+    if name in exact:
+        return True
+    return (module is None or module in _PREFIX_MODULES) and any(name.startswith(p) for p in prefixes)
 
 
 # ------------------------------------------------------------------------------------------------------------- AST utils
@@ -239,10 +245,28 @@ class _Subst(ast.NodeTransformer):
     def __init__(self, names: dict[str, ast.expr | str]):
         self.names = names
 
+    def visit_Call(self, node):
+        # a parameter bound to a lambda and applied in the helper (`transform(expr)`): the application is the lambda's body
+        # with its parameters replaced by the arguments (beta reduction)
+        lam = self.names.get(node.func.id) if isinstance(node.func, ast.Name) else None
+        if isinstance(lam, ast.Lambda):
+            a = lam.args
+            if a.vararg or a.kwarg or a.kwonlyargs or a.defaults or node.keywords or len(a.args) != len(node.args):
+                raise _Skip("lambda argument applied in an unsupported way")
+            args = [self.visit(x) for x in node.args]
+            if not all(_simple(x) for x in args):
+                raise _Skip("lambda applied to a non-trivial argument")
+            inner = _Subst({p_.arg: v for p_, v in zip(a.args, args)})
+            return ast.copy_location(inner.visit(clone(lam.body)), node)
+        self.generic_visit(node)
+        return node
+
     def visit_Name(self, node):
         r = self.names.get(node.id)
         if r is None:
             return node
+        if isinstance(r, ast.Lambda):
+            raise _Skip("lambda argument used other than by calling it")
         if isinstance(r, str):
             return ast.copy_location(ast.Name(id=r, ctx=node.ctx), node)
         if not isinstance(node.ctx, ast.Load):
@@ -293,7 +317,7 @@ class Inliner:
             return None
         n = g.name
         private = n.startswith("_") or (g.cls is not None and g.cls.name.startswith("_"))
-        if not private or n.startswith("__") or _known_to_analyser(n):
+        if not private or n.startswith("__") or _known_to_analyser(n, g.module.name):
             return None
         if g.kind not in ("function", "method", "staticmethod"):
             return None
@@ -643,7 +667,9 @@ class Inliner:
         pre = []
         for p in params + kwonly:
             e = actual[p]
-            if _simple(e) and p not in stored:
+            if isinstance(e, ast.Lambda) and p not in stored and not any(isinstance(x, (ast.Lambda, ast.NamedExpr)) for x in ast.walk(e.body)):
+                subst[p] = e  # applied where the helper calls it (see _Subst.visit_Call)
+            elif _simple(e) and p not in stored:
                 subst[p] = e
             else:
                 t = self._fresh(p, taken)
